@@ -162,6 +162,29 @@ def tag_corrupt_sessions(rnd, n):
     return out + corrupt_one_call(rnd, slc, family="slc-corrupt")
 
 
+def frag_corrupt_sessions(rnd):
+    """A fragmented read / write one of whose NON-final fragment replies carries an encapsulation error (the transfer goes on,
+    the last fragment is good): the request did not succeed."""
+    from .. import session
+    from . import logix_rw
+    from .logix_rw import R
+    out = []
+    for j, (nel, pol) in enumerate(((1500, "LargeOK"), (400, "LargeRefused"), (2500, "LargeOK"), (300, "LargeRefused"))):
+        for api in ("read", "write"):
+            sc = logix_rw.session(rnd, 700 + j, prefix="fc", n_calls=0, big=[{"name": "FRG", "code": 0xC4, "dims": [nel]}], n_tags=1, policy=pol, caps=False)
+            call = S.read_call([R([("FRG", [])], count=nel)]) if api == "read" else S.write_call([R([("FRG", [])], count=nel, value=[rnd.randint(-9, 9) for _ in range(nel)])])
+            sc["calls"] = [{"api": "open"}, call, {"api": "close"}]
+            calls = reply_ordinals(session.run_scenario(sc))
+            ords = next(c["ords"] for c in calls if c["api"] == api)
+            for k in ords[:-1][:3]:
+                sc2 = json.loads(json.dumps(sc))
+                sc2["id"] = "fc%d%s%d" % (j, api[0], k)
+                sc2["family"] = "fragment-encap-error"
+                sc2["target"]["corrupt"] = {str(k): ["status32", rnd.choice([1, 0x64, 0x65])]}
+                out.append(sc2)
+    return out
+
+
 def run(ctx):
     thorough = ctx.tier == "thorough"
     rnd = random.Random(ctx.seed * 1009 + 13)
@@ -177,6 +200,7 @@ def run(ctx):
         pass
     scs += tag_corrupt_sessions(rnd, 1200 if thorough else 200)
     scs += error_trunc_sessions(rnd)
+    scs += frag_corrupt_sessions(rnd)
     results = se.run_all(ctx, scs, "c13")
     ctx.traces = len(results)
     se.report(ctx, results, lambda r, clause, ev: {"family": r["sc"]["family"], "api": ev.get("api", ev.get("k", ""))})
